@@ -31,6 +31,7 @@ CONFIG = dict(
                  "backend failures are imap.Error values of type NO",
                  "lines that are not even 'tag SP command' (connection is dropped) belong to C04/C06"],
     leanchecker=True,
+    source_facts=True,
     timeout=dict(quick=600, thorough=7200, widen=1200),
     level_text="proof: for all configurations and all histories over the command alphabet x backend outcomes, every session call "
                "of the mirrored state machine is made in a state in which RFC 9051 permits it (gate), credentials reach the "
